@@ -57,6 +57,14 @@ def three_val(test, val, seen=None, defs=None, depth=0):
     if isinstance(test, ast.Name) and norm(test) not in val and defs and len(defs.get(test.id, [])) == 1 and depth < 4 \
             and isinstance(defs[test.id][0], (ast.BoolOp, ast.Compare, ast.UnaryOp, ast.Call)):
         return three_val(defs[test.id][0], val, seen, defs, depth + 1)
+    if isinstance(test, ast.IfExp):
+        t_ = three_val(test.test, val, seen, defs, depth)
+        if t_ is not None:
+            return three_val(test.body if t_ else test.orelse, val, seen, defs, depth)
+        a_, b_ = three_val(test.body, val, seen, defs, depth), three_val(test.orelse, val, seen, defs, depth)
+        return a_ if a_ == b_ else None
+    if isinstance(test, ast.Constant) and isinstance(test.value, bool):
+        return test.value
     if isinstance(test, ast.BoolOp):
         vs = [three_val(v, val, seen, defs, depth) for v in test.values]
         if isinstance(test.op, ast.And):
